@@ -33,6 +33,13 @@ for line in (V / 'properties.jsonl').read_text().splitlines():
     extra = SHAPELY if pid in ('C04', 'C05') else ''
     if rnd == '5':
         extra += '\nIn this round avoid memoisation / stale-cache ideas and anything similar to the list above. Prefer: an error/exception path that leaves something half-done or reports the wrong thing; a numerical slip (precision, dtype, unit, sign, rounding direction, degrees vs radians, inclusive vs exclusive) confined to one branch or one range of values; an argument order or default-value change that only matters for a non-default call; a condition that is right for scalars but wrong for arrays (or the reverse).\n'
+    elif rnd == '6':
+        extra += ('\nIn this round avoid memoisation / stale-cache ideas, dtype slips and anything similar to the list above. First go through the '
+                  'property statement clause by clause, note which clauses the earlier ideas already broke, and aim at a clause or a code path none of them touches. '
+                  'Prefer: an entry point other than the most obvious one (alternate constructors and class methods, keyword options with non-default values, '
+                  'command-line entry points, the iteration / context-manager / len protocol); the first or last element of a range, an empty or single-element input, '
+                  'ties and ordering when two keys are equal; a unit conversion or constant used on one path only; two features that each work alone but not together; '
+                  'a clean-up or bookkeeping step skipped on one early-return path.\n')
     elif rnd not in ('', '2'):
         extra += '\nIn this round avoid memoisation / stale-cache ideas (used a lot already). Prefer: a wrong boundary or comparison, a unit or sign slip confined to one branch, an ordering problem between two steps, a check applied to the wrong object, an exception path that skips a clean-up, two sites that must agree and no longer do.\n'
     t = tmpl.replace('@TREE@', tree).replace('@PROPERTY@', prop).replace('@AVOID@', avoid).replace('@EXTRA@', extra)
